@@ -215,6 +215,8 @@ def gen_history(rng, n, etags):
                 im = ("CTag", ("EtBogus",))
             elif rr < 0.22:
                 im = ("CStar",)
+            elif rr < 0.27:
+                im = ("CTag", ("EtTrunc", rng.choice(["quote", "prefix", "inner", "noquotes", "empty-quotes", "suffix"])))
             inm = rng.random() < 0.12
             ct = rng.choice(["CTNone", "CTNone", "CTCal", "CTCard"])
             if b[0] == "BEmpty" and ct == "CTCal":
@@ -253,6 +255,8 @@ def gen_history(rng, n, etags):
                 im = ("CStar",)
             elif rr < 0.36 and len(tgt) <= 2:
                 im = ("CTag", ("EtColl",))
+            elif rr < 0.44:
+                im = ("CTag", ("EtTrunc", rng.choice(["quote", "prefix", "inner", "noquotes", "empty-quotes", "suffix"])))
             r = ("RDelete", tgt, im)
         elif k < 0.70:
             to_c = rng.choice([c, c, rng.choice(colls)])
@@ -332,7 +336,7 @@ def directed_cases():
     # --- PUT of an item: target state x body kind x conditions
     for coll, state, body, cond in itertools.product((cal, adr), ("absent", "exists", "uid-elsewhere"),
                                                      ("right", "wrong-type", "other-uid"),
-                                                     ("none", "if-match-right", "if-match-stale", "if-match-star", "if-none-match")):
+                                                     ("none", "if-match-right", "if-match-stale", "if-match-star", "if-none-match", "if-match-prefix")):
         right, wrong = (cd, ev) if coll == adr else (ev, cd)
         tgt = coll + (100,)
         reqs = [mk[coll]]
@@ -351,15 +355,17 @@ def directed_cases():
             im = ("CStar",)
         elif cond == "if-none-match":
             inm = True
+        elif cond == "if-match-prefix":
+            im = ("CTag", ("EtTrunc", "prefix"))
         reqs.append(put(tgt, new, im, inm))
         reqs += observe(coll) + [("RGet", tgt)]
         out.append((open_world(), hist(reqs)))
     # --- DELETE: item / collection x If-Match x permit_delete_collection
-    for what, cond, permit in itertools.product(("item", "collection", "missing"), ("none", "right", "stale", "star"), (True, False)):
+    for what, cond, permit in itertools.product(("item", "collection", "missing"), ("none", "right", "stale", "star", "quote", "prefix", "noquotes"), (True, False)):
         reqs = [mk[cal], put(cal + (100,), ev(0)), put(cal + (101,), ev(1))]
         tgt = {"item": cal + (100,), "collection": cal, "missing": cal + (102,)}[what]
         im = {"none": ("CNone",), "right": ("CTag", ("EtItem", ev(0))) if what != "collection" else ("CTag", ("EtColl",)),
-              "stale": ("CTag", ("EtItem", ev(3, 2))), "star": ("CStar",)}[cond]
+              "stale": ("CTag", ("EtItem", ev(3, 2))), "star": ("CStar",)}.get(cond) or ("CTag", ("EtTrunc", cond))
         reqs.append(("RDelete", tgt, im))
         reqs += observe((10,), cal) + [("RGet", cal + (100,))]
         out.append((open_world(permit_delete=permit), hist(reqs)))
@@ -488,6 +494,13 @@ class Runner:
             return '"bogus"'
         if e[0] == "EtItem":
             return self.etags.etag_of[e[1]]
+        if e[0] == "EtTrunc":
+            # a malformed value that is PART of the current ETag of the target (the model: never matches)
+            if self.cur_login:
+                srv.request("OPTIONS", "/", login=self.cur_login)
+            cur = current_etag(srv, target) or '"0123456789abcdef0123456789abcdef"'       # nothing there: any non-empty value
+            return {"quote": '"', "prefix": cur[:12], "inner": cur[5:20], "noquotes": cur.strip('"'), "empty-quotes": '""',
+                    "suffix": cur[-9:]}[e[1]]
         # current collection etag; the gate may create the user's home during the request itself, so let it
         # happen first (the model's ensure_home is idempotent)
         if self.cur_login:
@@ -550,6 +563,14 @@ class Runner:
             data = ('<?xml version="1.0"?><%s xmlns:D="DAV:" %s><D:prop><D:getetag/></D:prop>%s</%s>' % (
                 root, ns, "".join("<D:href>%s</D:href>" % path_str(h) for h in hs), root))
         self.last_headers = hdr
+        if kind in ("RPut", "RDelete", "RGet", "RPropfind", "RMove") and len(r[1]) == 3 and not path.endswith("/"):
+            # another spelling of the same resource: a trailing slash on the URL of an EXISTING item (deterministic choice)
+            import zlib
+            fs = os.path.join(srv.folder, "collection-root", *path.strip("/").split("/"))
+            if os.path.isfile(fs) and zlib.crc32(repr((r, self.sent.get("n", 0))).encode()) % 3 == 0:
+                path += "/"
+                self.sent["slash"] = self.sent.get("slash", 0) + 1
+        self.sent["n"] = self.sent.get("n", 0) + 1
         st, h, b = srv.request(method, path, data=data, login=login, **hdr)
         self.last_response = (st, h)
         return self.canon(kind, r, st, h, b, user)
